@@ -175,11 +175,17 @@ def run(ctx):
             t2 = [t for t, _, _ in e2 if "'" not in t and "\\" not in t]
             if not t1 or not t2:
                 continue
-            s1_ = "".join(rng.choice(t1) for _ in range(rng.randrange(1, 6)))
-            s2_ = "".join(rng.choice(t1) for _ in range(rng.randrange(1, 6)))
-            s3_ = "".join(rng.choice(t2) for _ in range(rng.randrange(1, 6)))
-            if any("[0x" in x or "\n" in x for x in (s1_, s2_, s3_)):
+            t1 = [t for t in t1 if "[" not in t and "\n" not in t]
+            t2 = [t for t in t2 if "[" not in t and "\n" not in t]
+            if not t1 or not t2:
                 continue
+            # raw-byte escapes (six characters, one byte) and characters without an entry (one character, no byte)
+            unknown = [c for c in "~^|\u00e9" if all(c not in t for t, _, _ in e1 + e2)]
+            extra = ["[0x05]", "[0xfe]", "[0x00]"] + unknown
+            pick = lambda tt: rng.choice(tt) if rng.random() < 0.75 else rng.choice(extra)  # noqa: E731
+            s1_ = "".join(pick(t1) for _ in range(rng.randrange(1, 6)))
+            s2_ = "".join(pick(t1) for _ in range(rng.randrange(1, 6)))
+            s3_ = "".join(pick(t2) for _ in range(rng.randrange(1, 6)))
             depth = rng.randrange(1, 4)
             opens = "".join(rng.choice(["{\n", ".scope sc%d {\n" % k]) for k in range(depth))
             if i % 3 == 2:
